@@ -60,42 +60,93 @@ func checkC17(w *World, r *Report) {
 					if !ok || c.Call.StaticCallee() == nil || nm(c.Call.StaticCallee()) != "addChildrenWithActionChain" {
 						continue
 					}
-					key := strings.TrimPrefix(strings.TrimPrefix(funcKey(f), "(*schema."), "schema.")
-					key = strings.Replace(key, ").", ".", 1)
-					// the actions: calls of the action makers in this function, in order, with the kind tests they get
-					var acts []string
+					keyOf := func(g *ssa.Function) string {
+						key := strings.TrimPrefix(strings.TrimPrefix(funcKey(g), "(*schema."), "schema.")
+						return strings.Replace(key, ").", ".", 1)
+					}
+					// the actions: calls of the action makers in this function, in order, with the kind tests
+					// they get; a kind test that is a parameter of this function is filled in per caller
+					type inst struct {
+						g    *ssa.Function
+						site ssa.CallInstruction
+					}
+					insts := []inst{{f, c}}
+					usesParam := false
 					for _, b2 := range f.Blocks {
 						for _, in2 := range b2.Instrs {
-							mk, ok := in2.(*ssa.Call)
-							if !ok || mk.Call.StaticCallee() == nil {
-								continue
-							}
-							name := nm(mk.Call.StaticCallee())
-							if name != "includeChildrenOf" && name != "addToChildrenExcluding" {
-								continue
-							}
-							var args []string
-							for _, a := range mk.Call.Args {
-								if ct, ok := a.(*ssa.ChangeType); ok {
-									a = ct.X
-								}
-								if fn, ok := a.(*ssa.Function); ok {
-									args = append(args, nm(fn))
-								} else {
-									args = append(args, "?")
+							if mk, ok := in2.(*ssa.Call); ok && mk.Call.StaticCallee() != nil && (nm(mk.Call.StaticCallee()) == "includeChildrenOf" || nm(mk.Call.StaticCallee()) == "addToChildrenExcluding") {
+								for _, a := range mk.Call.Args {
+									if ct, ok := a.(*ssa.ChangeType); ok {
+										a = ct.X
+									}
+									if _, isP := a.(*ssa.Parameter); isP {
+										usesParam = true
+									}
 								}
 							}
-							acts = append(acts, name+"("+strings.Join(args, ",")+")")
 						}
 					}
-					got := strings.Join(acts, ";")
-					exp, known := want[key]
-					seen[key] = true
-					if !known {
-						r.Fail("R17.8", key+" builds a child table", c.Pos(), "a child table is built with its own action chain ("+got+") at a place that is not one of the three reviewed ones: which nodes a path may name below it is decided differently from everywhere else")
-						continue
+					if usesParam {
+						insts = nil
+						for _, g := range allFuncs(sp) {
+							for _, gb := range g.Blocks {
+								for _, gin := range gb.Instrs {
+									if gc, ok := gin.(ssa.CallInstruction); ok && gc.Common().StaticCallee() == f {
+										insts = append(insts, inst{g, gc})
+									}
+								}
+							}
+						}
+						if len(insts) == 0 {
+							r.Fail("R17.8", keyOf(f)+" builds a child table", c.Pos(), "the kind tests of the action chain are parameters and no caller was found")
+						}
 					}
-					r.Check(got == exp, "R17.8", key+" builds its child table", c.Pos(), exp, "the action chain is "+got+", reviewed as "+exp+": the children of a choice's cases are not lifted into the enclosing node (or the choice itself is kept), so paths through the choice are rejected or a choice becomes nameable")
+					for _, is := range insts {
+						key := keyOf(is.g)
+						var acts []string
+						for _, b2 := range f.Blocks {
+							for _, in2 := range b2.Instrs {
+								mk, ok := in2.(*ssa.Call)
+								if !ok || mk.Call.StaticCallee() == nil {
+									continue
+								}
+								name := nm(mk.Call.StaticCallee())
+								if name != "includeChildrenOf" && name != "addToChildrenExcluding" {
+									continue
+								}
+								var args []string
+								for _, a := range mk.Call.Args {
+									if ct, ok := a.(*ssa.ChangeType); ok {
+										a = ct.X
+									}
+									if prm, isP := a.(*ssa.Parameter); isP && is.g != f {
+										for pi, q := range f.Params {
+											if q == prm && pi < len(is.site.Common().Args) {
+												a = is.site.Common().Args[pi]
+											}
+										}
+										if ct, ok := a.(*ssa.ChangeType); ok {
+											a = ct.X
+										}
+									}
+									if fn, ok := a.(*ssa.Function); ok {
+										args = append(args, nm(fn))
+									} else {
+										args = append(args, "?")
+									}
+								}
+								acts = append(acts, name+"("+strings.Join(args, ",")+")")
+							}
+						}
+						got := strings.Join(acts, ";")
+						exp, known := want[key]
+						seen[key] = true
+						if !known {
+							r.Fail("R17.8", key+" builds a child table", is.site.Pos(), "a child table is built with its own action chain ("+got+") at a place that is not one of the three reviewed ones: which nodes a path may name below it is decided differently from everywhere else")
+							continue
+						}
+						r.Check(got == exp, "R17.8", key+" builds its child table", is.site.Pos(), exp, "the action chain is "+got+", reviewed as "+exp+": the children of a choice's cases are not lifted into the enclosing node (or the choice itself is kept), so paths through the choice are rejected or a choice becomes nameable")
+					}
 				}
 			}
 		}
